@@ -67,3 +67,8 @@ CASES += [
     dict(id='c18-eq-hidden-getter-parenthesised', prop='C18', file=TBH, expect=None,
          old="   return mIsHidden;", new="   return (mIsHidden);"),
 ]
+
+CASES += [
+    dict(id='c18-checks-dropped-after-use', prop='C18', file=TBC, expect='R10',
+         old="   for (auto & curr_constraint : mConstraints)", new="   mChecks.clear();\n   for (auto & curr_constraint : mConstraints)"),
+]
